@@ -254,3 +254,87 @@ REG.loop('DynamicSchedulingFromPlan.run', 1, inv=_dp_loop1_inv,
          modifies=['allocations', 'temporary_resources', 'removed', 'added', 'self.accurate', 'heap:WorkflowPlan.status'],
          props=['C17', 'C03', 'C01'])
 REG.loop('DynamicSchedulingFromPlan.run', 2, inv=_count_inv, modifies_locals=['p', 'count'], props=['C03'])
+
+
+# ================================================================================================ GreedySchedulingFromPlan (C03, C01)
+def GPW(eng):
+    d = alg_world('GreedySchedulingFromPlan')(eng)
+    # run() creates these two counters before it calls the helper (the helper is private to run)
+    d['self'].fields['accurate'] = eng.fresh_of_type('num', 'greedy.accurate')
+    d['self'].fields['alternate'] = eng.fresh_of_type('num', 'greedy.alternate')
+    return d
+
+
+def _ama_ens(c):
+    o, n = c.o, c.n
+    k = CV(o.cluster)
+    m, t = o.machine.t, o.task.t
+    A0, A1 = o.allocations, c.result[0]
+    T0, T1 = o.temporary_resources, c.result[1]
+    occupied = z3.Or(k.occ.count(m) > 0, k.ing.count(m) > 0)
+    chosen = z3.Select(A1.vals, t)
+    did = z3.Or(z3.Not(occupied), T0.n > 0)
+    return [('result-is-the-updated-arguments', z3.And(A1.keys == n.allocations.keys, A1.vals == n.allocations.vals,
+                                                       T1.cnt == n.temporary_resources.cnt, T1.n == n.temporary_resources.n)),
+            ('C01-allocates-a-machine-of-the-free-list-and-removes-it', z3.Implies(did, z3.And(
+                z3.Select(A1.keys, t), T0.count(chosen) > 0, z3.Implies(z3.Not(occupied), chosen == m),
+                T1.cnt == z3.Store(T0.cnt, chosen, z3.Select(T0.cnt, chosen) - 1), T1.n == T0.n - 1,
+                A1.keys == z3.Store(A0.keys, t, True), A1.vals == z3.Store(A0.vals, t, chosen)))),
+            ('C17-busy-planned-machine-and-nothing-free-means-no-allocation', z3.Implies(z3.Not(did), z3.And(
+                A1.keys == A0.keys, A1.vals == A0.vals, T1.cnt == T0.cnt, T1.n == T0.n)))]
+
+
+REG.contract('GreedySchedulingFromPlan._attempt_machine_allocation', world=GPW,
+             params={'cluster': 'root:cluster', 'machine': 'Machine', 'task': 'Task', 'allocations': 'dict:Task->ref:Machine',
+                     'temporary_resources': 'list:Machine'},
+             ensures=_ama_ens, result='tuple:dict:Task->ref:Machine,list:Machine',
+             raises={'ValueError': dict(when=lambda c: z3.And(z3.Not(z3.Or(CV(c.o.cluster).occ.count(c.o.machine) > 0, CV(c.o.cluster).ing.count(c.o.machine) > 0)),
+                                                              c.o.temporary_resources.count(c.o.machine) <= 0), unchanged=False)},
+             modifies=['arg:allocations', 'arg:temporary_resources', 'self.alternate', 'self.accurate'], props=['C03', 'C01'])
+
+
+def _greedy_facts(c, o, n, A, E, T, T0):
+    k = CV(o.cluster)
+    ids = o.heap('Task', 'id')
+    st0 = lambda t: z3.Select(o.heap('Task', 'task_status'), t)
+    predcnt = lambda t: z3.Select(o.heap('Task', 'pred.cnt', IntArr), t)
+    new = lambda t: z3.And(z3.Select(A.keys, t), z3.Not(z3.Select(E.keys, t)))
+    uw = z3.Int('uw')
+    return [('C03-every-predecessor-id-of-a-new-allocation-is-the-id-of-a-task-in-the-finished-map', Q([('t', I), ('pid', I)], lambda t, pid: z3.Implies(
+        z3.And(new(t), z3.Select(predcnt(t), pid) > 0), z3.Exists([uw], z3.And(k.fin.has(uw), z3.Select(ids, uw) == pid))))),
+            ('C04-only-unscheduled-tasks-are-proposed', Q([('t', I)], lambda t: z3.Implies(new(t), st0(t) == TS('UNSCHEDULED')))),
+            ('existing-proposals-kept-or-reassigned-only-for-unscheduled-tasks', Q([('t', I)], lambda t: z3.Implies(z3.Select(E.keys, t), z3.Select(A.keys, t)))),
+            ('C01-new-allocations-use-machines-of-the-free-list-read-at-the-start', Q([('t', I)], lambda t: z3.Implies(
+                new(t), z3.Select(T0.cnt, z3.Select(A.vals, t)) > 0))),
+            ('free-list-only-shrinks', Q([('m', I)], lambda m: z3.And(z3.Select(T.cnt, m) >= 0, z3.Select(T.cnt, m) <= z3.Select(T0.cnt, m))))]
+
+
+def _greedy_inv(c):
+    n, o = c.n, c.x['pre']
+    return _greedy_facts(c, o, n, n['allocations'], n['existing_schedule'], n['temporary_resources'], o['temporary_resources'])
+
+
+def _greedy_ens(c):
+    o, n = c.o, c.n
+    k = CV(o.cluster)
+    A, E = c.result[0], o.existing_schedule
+    ids = o.heap('Task', 'id')
+    predcnt = lambda t: z3.Select(o.heap('Task', 'pred.cnt', IntArr), t)
+    new = lambda t: z3.And(z3.Select(A.keys, t), z3.Not(z3.Select(E.keys, t)))
+    uw = z3.Int('uw')
+    return [('C03-every-predecessor-id-of-a-new-allocation-is-the-id-of-a-task-in-the-finished-map', Q([('t', I), ('pid', I)], lambda t, pid: z3.Implies(
+        z3.And(new(t), z3.Select(predcnt(t), pid) > 0), z3.Exists([uw], z3.And(k.fin.has(uw), z3.Select(ids, uw) == pid))))),
+            ('C04-only-unscheduled-tasks-are-proposed', Q([('t', I)], lambda t: z3.Implies(new(t), z3.Select(o.heap('Task', 'task_status'), t) == TS('UNSCHEDULED'))))]
+
+
+REG.contract('GreedySchedulingFromPlan.run', world=GPW, params=COMMON_PARAMS,
+             requires=lambda c: [('assume:registered-machines-are-objects', Q([('k', I)], lambda k: z3.Implies(
+                 z3.Select(c.o.cluster.machine_ids.keys, k), z3.Select(c.o.cluster.machine_ids.vals, k) > 0)))],
+             ensures=_greedy_ens, result='tuple:dict:Task->ref:Machine,enum:WorkflowStatus,set:Task',
+             raises={'KeyError': dict(when=None, unchanged=False), 'ValueError': dict(when=None, unchanged=False)},
+             modifies=['heap:WorkflowPlan.status', 'self.accurate', 'self.alternate'], props=['C03', 'C01', 'C04'],
+             note="C03 for this algorithm is in terms of ids: 'finished' is the id set of the KEYS of the finished map; that those are finished "
+                  "workflow tasks is the cluster invariant C03-only-ingest-tasks-are-recorded-unfinished plus unique task ids (assumed)")
+REG.loop('GreedySchedulingFromPlan.run', 0, inv=_greedy_inv,
+         modifies_locals=['task', 'machine', 'pred', 'finished', 'allocations', 'temporary_resources'],
+         modifies=['self.accurate', 'self.alternate', 'heap:WorkflowPlan.status'], props=['C03', 'C01'])
